@@ -185,6 +185,24 @@ Ltac unify_b :=
           lazymatch X with Y => fail | _ => idtac end;
           replace (im X) with (im Y) by (f_equal; arg_eq2)
       end
+  | |- context [atan2 ?X ?P] =>
+      match goal with
+      | |- context [atan2 ?Y ?Q] =>
+          lazymatch constr:((X, P)) with (Y, Q) => fail | _ => idtac end;
+          replace (atan2 X P) with (atan2 Y Q) by (f_equal; arg_eq2)
+      end
+  | |- context [min_ ?X ?P] =>
+      match goal with
+      | |- context [min_ ?Y ?Q] =>
+          lazymatch constr:((X, P)) with (Y, Q) => fail | _ => idtac end;
+          replace (min_ X P) with (min_ Y Q) by (f_equal; arg_eq2)
+      end
+  | |- context [max_ ?X ?P] =>
+      match goal with
+      | |- context [max_ ?Y ?Q] =>
+          lazymatch constr:((X, P)) with (Y, Q) => fail | _ => idtac end;
+          replace (max_ X P) with (max_ Y Q) by (f_equal; arg_eq2)
+      end
   | |- context [cond_ ?b ?X ?P] =>
       match goal with
       | |- context [cond_ b ?Y ?Q] =>
@@ -220,7 +238,8 @@ Ltac cplx_zero :=
              replace (im X) with z0 by (transitivity (im z0); [ symmetry; apply im_z0 | f_equal; symmetry; arg_eq2 ])
          end.
 Ltac c03_close :=
-  norm_goal; dx_push; cbv [dfn sign_ erf_c]; norm_goal; cplx_zero; cond_zero; rewrite ?cond_same;
+  norm_goal; dx_push; cbv [dfn sign_ erf_c]; norm_goal; rewrite ?conj_z0, ?re_z0, ?im_z0; cplx_zero; cond_zero;
+  rewrite ?cond_same;
   first [ fin
         | repeat unify1; fin
         | rewrite ?div_def; repeat first [ unify1 | unify_b ]; fin
